@@ -89,15 +89,19 @@ def _extract(outdir, repo=None):
         shutil.rmtree(scratch, ignore_errors=True)
 
 
-def acquire(repo=None):
-    """Return (dir with the five fact files, info dict). Uses the content-hash cache."""
+def acquire(repo=None, cache=None):
+    """Return (dir with the five fact files, info dict). Uses the content-hash cache.
+
+    Extraction is serialised per tree hash only (checks of one tree share one extraction, checks of different
+    trees - the self-validation variants - run in parallel); pruning takes a short global lock."""
     repo = repo or REPO
-    os.makedirs(CACHE, exist_ok=True)
+    cache = cache or CACHE
+    os.makedirs(cache, exist_ok=True)
     t0 = time.time()
     key = tree_hash(repo)
-    d = os.path.join(CACHE, key)
+    d = os.path.join(cache, key)
     info = {"tree_hash": key, "cached": True}
-    with open(os.path.join(CACHE, "lock"), "w") as lk:
+    with open(os.path.join(cache, "lock-" + key), "w") as lk:
         fcntl.flock(lk, fcntl.LOCK_EX)
         ok = os.path.isdir(d) and all(os.path.exists(os.path.join(d, c + ".json")) for c in CRATES)
         if os.environ.get("VERIF_NO_CACHE") == "1" and ok:
@@ -110,13 +114,19 @@ def acquire(repo=None):
             _extract(tmp, repo)
             shutil.rmtree(d, ignore_errors=True)
             os.rename(tmp, d)
-        # prune: keep the 4 most recent entries
-        ents = [os.path.join(CACHE, e) for e in os.listdir(CACHE) if os.path.isdir(os.path.join(CACHE, e))]
-        ents.sort(key=lambda p: os.path.getmtime(p), reverse=True)
         os.utime(d, None)
+    with open(os.path.join(cache, "lock"), "w") as lk:
+        fcntl.flock(lk, fcntl.LOCK_EX)
+        # prune: keep the most recent entries
+        ents = [os.path.join(cache, e) for e in os.listdir(cache) if os.path.isdir(os.path.join(cache, e)) and ".tmp" not in e]
+        ents.sort(key=lambda p: os.path.getmtime(p), reverse=True)
         for e in ents[6:]:
             if e != d:
                 shutil.rmtree(e, ignore_errors=True)
+                try:
+                    os.unlink(os.path.join(cache, "lock-" + os.path.basename(e)))
+                except OSError:
+                    pass
     info["extract_s"] = round(time.time() - t0, 2)
     return d, info
 
@@ -365,8 +375,12 @@ class AnchorMissing(Exception):
 _PROGRAM = None
 
 
-def load_program():
+def load_program(repo=None, cache=None):
+    """The program of /repo's working tree (memoised); with `repo` given, a fresh un-memoised program of that tree."""
     global _PROGRAM
+    if repo is not None:
+        d, info = acquire(repo, cache)
+        return Program(d, info)
     if _PROGRAM is None:
         d, info = acquire()
         t0 = time.time()
